@@ -39,7 +39,9 @@ for _c in CIRCUITS:
     _c["segments"] = len(runs)
     _c["native_segments"] = sum(1 for k in runs if k)
 
-KINDS = ["mock", "mock_more", "mock_batch", "symbolic", "basesim", "track:mock", "track:mock:bits", "track:symbolic", "track:basesim:bits"]
+KINDS = ["mock", "mock_more", "mock_batch", "symbolic", "basesim", "track:mock", "track:mock:bits", "track:symbolic", "track:basesim:bits",
+         # a wrapped runner that legitimately returns MORE shots than requested: the record must describe what was returned
+         "track:mock_more", "track:mock_more:bits", "track:mock_batch"]
 
 
 def make_runner(kind, circuits, workdir):
